@@ -52,7 +52,7 @@ Proof.
     replace (Z.of_nat (S u) =? 0) with false by (symmetry; apply Z.eqb_neq; lia). xstep.
     xfld Rb Rp. xfld Rb Rhu. rewrite wrap_I32_id by (unfold i32 in *; lia).
     rewrite chk_I32 by lia. xstep.
-    rewrite (load_cell m bh hblk (LOPT_CELLS * u + O_seq) _ _ Rhb (Rcells u ltac:(lia))) by (unfold LOPT_CELLS, O_seq; lia).
+    rewrite (fld_load m bh hblk (LOPT_CELLS * u + O_seq) _ _ Rhb (Rcells u ltac:(lia))) by (unfold LOPT_CELLS, O_seq; lia).
     xstep. rewrite wrap_I32_id by (apply seq_at_i32; exact Hs). reflexivity.
 Qed.
 
@@ -92,7 +92,7 @@ Proof.
   pose proof Hints as (Hu & Hz & Hl & Hs & Hc & Hn). pose proof R as [Rb Rl Ru Rsz Rn Rhu Rz Rla Rh].
   enter F_lbuf_modified cf_lbuf_modified. xstep. xfld Rb Ru. rewrite (wrap_I32_id _ Hu).
   rewrite chk_I32 by (unfold i32 in *; lia). xstep.
-  rewrite (store_cell m bl blk L_useq _ _ Rb) by (rewrite ?Rl; unfold LBUF_CELLS, L_useq; try reflexivity; lia). xstep.
+  rewrite (fld_store m bl blk L_useq _ _ Rb) by (rewrite ?Rl; unfold LBUF_CELLS, L_useq; try reflexivity; lia). xstep.
   cbn [fst snd]. fold blk'. rewrite (tr_lbuf_seq (upd m bl blk') bl blk' (bump lb) d fuel R').
   2:{ unfold lbuf_ints in *. cbn [bump useq hist hist_u useq_zero useq_last]. unfold i32 in *. repeat split; try tauto; lia. }
   xstep. destruct R' as [Rb' _ _ _ _ _ Rz' _ _]. xfld Rb' Rz'. cbn [bump useq_zero]. rewrite (wrap_I32_id _ Hz).
@@ -114,7 +114,7 @@ Theorem tr_lbuf_unsaved m bl blk lb d fuel : lbuf_rep m bl blk lb ->
 Proof.
   intros R blk'. pose proof R as [Rb Rl Ru Rsz Rn Rhu Rz Rla Rh]. split.
   - enter F_lbuf_unsaved cf_lbuf_unsaved. xstep. change (chk I32 (- (1))) with (@Ok Z (-1)). xstep.
-    rewrite (store_cell m bl blk L_useq_zero _ _ Rb) by (try reflexivity; fld_len). reflexivity.
+    rewrite (fld_store m bl blk L_useq_zero _ _ Rb) by (try reflexivity; fld_len). reflexivity.
   - apply (rep_store m bl blk lb); try assumption; try reflexivity; try fld_ne; try (unfold LBUF_CELLS; fld_ne);
       cbn [lbuf_unsaved set_zero useq hist_sz hist_u useq_zero useq_last]; fld_after.
 Qed.
@@ -144,10 +144,10 @@ Proof.
   split; [|exact R2].
   enter F_lbuf_saved cf_lbuf_saved. xstep.
   rewrite (tr_lbuf_seq m bl blk lb (S d) fuel R Hints). xstep. rewrite (wrap_I32_id _ Hq).
-  rewrite (store_cell m bl blk L_useq_zero _ _ Rb) by (try reflexivity; fld_len). xstep. fold blk1.
+  rewrite (fld_store m bl blk L_useq_zero _ _ Rb) by (try reflexivity; fld_len). xstep. fold blk1.
   (* ex_lbuf() *)
   rewrite (callf_S cprog fuel (S d) F_ex_lbuf). cbn [nth_error cprog F_ex_lbuf cf_ex_lbuf fn_nparams fn_nlocals fn_body length Nat.eqb Nat.sub repeat app]. xstep.
   assert (Hgb1 : nth_error (upd m bl blk1) G_bufs = Some gblk) by (rewrite mem_upd_other by (try assumption; congruence); exact Hgb).
-  rewrite (load_cell _ G_bufs gblk B_lb _ _ Hgb1 Hxb) by reflexivity. xstep.
+  rewrite (fld_load _ G_bufs gblk B_lb _ _ Hgb1 Hxb) by reflexivity. xstep.
   rewrite C2. reflexivity.
 Qed.
